@@ -623,7 +623,7 @@ fn mutation_kinds() -> Vec<&'static str> {
          "directive_unknown", "directive_misplaced", "directive_repeated",
          "dirarg_wrong_literal", "dirarg_missing_required", "dirarg_unknown", "dirarg_not_needed", "dirarg_null", "dirarg_enum_member",
          "dirarg_input_field", "dirarg_variable",
-         "directive_recursive_self", "directive_recursive_mutual", "directive_recursive_type", "directive_cycle_with_entry",
+         "directive_recursive_self", "directive_recursive_mutual", "directive_recursive_type", "directive_cycle_with_entry", "directive_recursive_type", "directive_recursive_type",
          // spec-invalid or odd documents outside the implemented rules: correspondence only (label x_*)
          "x_cross_kind_dup", "x_dup_directive_def", "x_ext_without_original", "x_dup_dirarg_in_app", "x_int_out_of_range", "x_nested_type_recursion", "x_empty_object", "x_empty_union"]
 }
@@ -1112,17 +1112,35 @@ fn mutate(rng: &mut Rng, m: &mut Model, kind: &str) -> Option<(String, String)> 
                     ok("directive_recursive", "mutual")
                 }
                 "directive_recursive_type" => {
-                    let which = rng.below(4);
-                    let (tname_, tdef, site) = match which {
-                        0 => ("RecS", TypeDef { name: "RecS".into(), kind: Kind::Scalar, dirs: vec![app("rect")], desc: None, is_ext: false }, "via_scalar"),
-                        1 => ("RecE", TypeDef { name: "RecE".into(), kind: Kind::Enum { values: vec![EnumVal { name: "RV".into(), dirs: vec![app("rect")] }] }, dirs: vec![], desc: None, is_ext: false }, "via_enum_value"),
-                        2 => ("RecE", TypeDef { name: "RecE".into(), kind: Kind::Enum { values: vec![EnumVal { name: "RV".into(), dirs: vec![] }] }, dirs: vec![app("rect")], desc: None, is_ext: false }, "via_enum"),
-                        _ => ("RecIn", TypeDef { name: "RecIn".into(), kind: Kind::Input { fields: vec![arg("x", Ty::n("Int"), vec![app("rect")])] }, dirs: vec![], desc: None, is_ext: false }, "via_input_field"),
+                    // @rect(a: T) where the definition of T -- at every kind of position directives_in_type walks, in the
+                    // definition or in an `extend` -- applies @rect.  The argument is nullable, so `@rect` alone is a legal application.
+                    let ev = |n: &str, d: Vec<App>| EnumVal { name: n.into(), dirs: d };
+                    let fd = |n: &str, d: Vec<App>| Field { name: n.into(), args: vec![], ty: Ty::n("Int"), dirs: d, desc: None, root: None };
+                    let td = |n: &str, k: Kind, d: Vec<App>, ext: bool| TypeDef { name: n.into(), kind: k, dirs: d, desc: None, is_ext: ext };
+                    let r = || vec![app("rect")];
+                    // rotate through the positions so that every one of them occurs in every run
+                    static NEXT_POS: std::sync::atomic::AtomicUsize = std::sync::atomic::AtomicUsize::new(0);
+                    let which = NEXT_POS.fetch_add(1, std::sync::atomic::Ordering::Relaxed) % 13;
+                    let (tname_, defs, site): (&str, Vec<TypeDef>, &str) = match which {
+                        0 => ("RecS", vec![td("RecS", Kind::Scalar, r(), false)], "via_scalar"),
+                        1 => ("RecS", vec![td("RecS", Kind::Scalar, vec![], false), td("RecS", Kind::Scalar, r(), true)], "via_scalar_extension"),
+                        2 => ("RecE", vec![td("RecE", Kind::Enum { values: vec![ev("RV", vec![])] }, r(), false)], "via_enum"),
+                        3 => ("RecE", vec![td("RecE", Kind::Enum { values: vec![ev("RV", vec![]), ev("RW", r())] }, vec![], false)], "via_enum_value"),
+                        4 => ("RecE", vec![td("RecE", Kind::Enum { values: vec![ev("RV", vec![])] }, vec![], false), td("RecE", Kind::Enum { values: vec![ev("RX", r())] }, vec![], true)], "via_enum_value_extension"),
+                        5 => ("RecE", vec![td("RecE", Kind::Enum { values: vec![ev("RV", vec![])] }, vec![], false), td("RecE", Kind::Enum { values: vec![] }, r(), true)], "via_enum_extension"),
+                        6 => ("RecIn", vec![td("RecIn", Kind::Input { fields: vec![arg("x", Ty::n("Int"), vec![])] }, r(), false)], "via_input"),
+                        7 => ("RecIn", vec![td("RecIn", Kind::Input { fields: vec![arg("x", Ty::n("Int"), vec![]), arg("y", Ty::n("Int"), r())] }, vec![], false)], "via_input_field"),
+                        8 => ("RecIn", vec![td("RecIn", Kind::Input { fields: vec![arg("x", Ty::n("Int"), vec![])] }, vec![], false), td("RecIn", Kind::Input { fields: vec![arg("z", Ty::n("Int"), r())] }, vec![], true)], "via_input_field_extension"),
+                        // output types cannot be argument types (NoOutputType is reported as well); the search walks them all the same
+                        9 => ("RecO", vec![td("RecO", Kind::Object { implements: vec![], fields: vec![fd("x", vec![])] }, r(), false)], "via_object"),
+                        10 => ("RecO", vec![td("RecO", Kind::Object { implements: vec![], fields: vec![fd("x", vec![]), fd("y", r())] }, vec![], false)], "via_object_field"),
+                        11 => ("RecI", vec![td("RecI", Kind::Interface { implements: vec![], fields: vec![fd("x", r())] }, vec![], false)], "via_interface_field"),
+                        _ => ("RecU", vec![td("RecU", Kind::Union { members: m.names_of(|k| matches!(k, Kind::Object { .. })).into_iter().take(1).collect() }, r(), false)], "via_union"),
                     };
-                    m.items.insert(at, Item::D(DirDef { name: "rect".into(), args: vec![arg("a", wrap(rng, tname_), vec![])], repeatable: false,
-                                                         locations: loc(&["SCALAR", "ENUM", "ENUM_VALUE", "INPUT_FIELD_DEFINITION"]), desc: None }));
-                    let at2 = rng.below(m.items.len() + 1);
-                    m.items.insert(at2, Item::T(tdef));
+                    let aty = { let t = wrap(rng, tname_); if let Ty::NonNull(x) = t { *x } else { t } };
+                    m.items.insert(at, Item::D(DirDef { name: "rect".into(), args: vec![arg("a", aty, vec![])], repeatable: false,
+                                                         locations: TS_LOCS.iter().map(|s| s.to_string()).collect(), desc: None }));
+                    for t in defs { let at2 = rng.below(m.items.len() + 1); m.items.insert(at2, Item::T(t)); }
                     ok("directive_recursive", site)
                 }
                 _ => {
@@ -1291,6 +1309,12 @@ fn corpus() -> Vec<(&'static str, &'static str, &'static str)> {
         ("x_empty_object", "corpus:object_without_fields", "type A\ntype Query { a: A }\n"),
         ("x_empty_union", "corpus:union_without_members", "union U\ntype Query { u: U }\n"),
         ("iface_field_missing", "corpus:object_without_fields_implements", "interface I { f: Int }\ntype A implements I\ntype Query { a: A }\n"),
+        ("directive_recursive", "corpus:via_enum_value", "directive @tag(level: Level) on ENUM_VALUE\nenum Level { LOW @tag(level: HIGH) HIGH }\ntype Query { a: Int }\n"),
+        ("directive_recursive", "corpus:via_enum_value_in_extension", "directive @tag(level: Level) on ENUM_VALUE\nenum Level { LOW HIGH }\nextend enum Level { MID @tag(level: LOW) }\ntype Query { a: Int }\n"),
+        ("directive_recursive", "corpus:via_enum_type", "directive @tag(level: [Level!]) on ENUM\nenum Level @tag { LOW }\ntype Query { a: Int }\n"),
+        ("directive_recursive", "corpus:via_scalar_extension", "directive @tag(s: Sc) on SCALAR\nscalar Sc\nextend scalar Sc @tag(s: 1)\ntype Query { a: Int }\n"),
+        ("directive_recursive", "corpus:via_input_type", "directive @tag(i: In) on INPUT_OBJECT\ninput In @tag { x: Int }\ntype Query { a: Int }\n"),
+        ("directive_recursive", "corpus:via_input_field_in_extension", "directive @tag(i: In) on INPUT_FIELD_DEFINITION\ninput In { x: Int }\nextend input In { y: Int @tag(i: {x: 1}) }\ntype Query { a: Int }\n"),
         ("directive_recursive", "corpus:cycle_with_entry_first", "directive @entry(x: Int @ping) on FIELD\ndirective @ping(y: Int @pong) on ARGUMENT_DEFINITION\ndirective @pong(z: Int @ping) on ARGUMENT_DEFINITION\ntype Query { a: Int }\n"),
         ("directive_recursive", "corpus:cycle_with_entry_last", "directive @ping(y: Int @pong) on ARGUMENT_DEFINITION\ndirective @pong(z: Int @ping) on ARGUMENT_DEFINITION\ndirective @entry(x: Int @ping) on FIELD\ntype Query { a: Int }\n"),
         ("directive_recursive", "corpus:cycle3_with_entry_first", "directive @entry(x: Int @b) on FIELD\ndirective @a(y: Int @b) on ARGUMENT_DEFINITION\ndirective @b(y: Int @c) on ARGUMENT_DEFINITION\ndirective @c(y: Int @a) on ARGUMENT_DEFINITION\ntype Query { a: Int }\n"),
